@@ -339,7 +339,7 @@ func (s *SinglePartQuery) copy() *SinglePartQuery {
 
 	return &SinglePartQuery{
 		errorContext: errorContext{
-			errors: s.errors,
+			errors: Copy(s.errors),
 		},
 
 		ReadingClauses:  Copy(s.ReadingClauses),
@@ -477,7 +477,7 @@ func (s *UpdatingClause) copy() *UpdatingClause {
 
 	return &UpdatingClause{
 		errorContext: errorContext{
-			errors: s.errors,
+			errors: Copy(s.errors),
 		},
 
 		Clause: Copy(s.Clause),
@@ -657,7 +657,7 @@ func (s *Create) copy() *Create {
 
 	return &Create{
 		errorContext: errorContext{
-			errors: s.errors,
+			errors: Copy(s.errors),
 		},
 
 		Unique:  s.Unique,
@@ -1156,7 +1156,7 @@ func (s *FunctionInvocation) copy() *FunctionInvocation {
 
 	return &FunctionInvocation{
 		errorContext: errorContext{
-			errors: s.errors,
+			errors: Copy(s.errors),
 		},
 
 		Distinct:  s.Distinct,
